@@ -104,6 +104,7 @@ func genReplset(prop string, seed uint64, tier string) *Scenario {
 		}
 		body.Faults = append(body.Faults, f)
 	}
+	forceMajority := false
 	{
 		// drawn from generators of their own: a network split into two groups (often right after the
 		// leader was killed), and member mixes with several arbiters
@@ -131,11 +132,22 @@ func genReplset(prop string, seed uint64, tier string) *Scenario {
 				kill = t1 + 1500 + sp.Intn(4000)
 			}
 			heal := kill + 2500 + sp.Intn(4000)
-			body.Faults = []RSFault{
-				{Kind: "split", AtMs: t1, ForMs: heal - t1, Group: g},
-				// right after an acknowledged lock: nobody has heard of the new log position yet
-				{Kind: "kill_leader", AtMs: kill, DownMs: heal - kill + 8000 + sp.Intn(8000), AfterAck: 1 + sp.Intn(30)},
+			body.Faults = nil
+			if sp.Intn(2) == 0 {
+				body.Faults = append(body.Faults, RSFault{Kind: "split", AtMs: t1, ForMs: heal - t1, Group: g})
+			} else {
+				// only the leader's links to the electable members are cut: they fall behind, but an
+				// election after the leader's death has its quorum at once
+				// (cut only shortly before the kill: what they miss is newer than what the members have
+				// told each other about their positions, which they do every 2 s)
+				kill = t1 + 1 + sp.Intn(60) // the kill then waits for the next acknowledged lock
+				for i := 3; i < n; i++ {
+					body.Faults = append(body.Faults, RSFault{Kind: "partition", A: 0, B: i, AtMs: t1, ForMs: heal - t1})
+				}
 			}
+			// right after an acknowledged lock: nobody has heard of the new log position yet
+			body.Faults = append(body.Faults, RSFault{Kind: "kill_leader", AtMs: kill, DownMs: heal - kill + 8000 + sp.Intn(8000), AfterAck: 1 + sp.Intn(30)})
+			forceMajority = true
 			for i := range body.Ops {
 				if body.Ops[i].DelayMs > 700 {
 					body.Ops[i].DelayMs = 100 + sp.Intn(600)
@@ -194,6 +206,9 @@ func genReplset(prop string, seed uint64, tier string) *Scenario {
 	raw, _ := json.Marshal(body)
 	k := genKnobs(r)
 	k.AofAckMode = uint(r.Intn(2))
+	if forceMajority {
+		k.AofAckMode = 1 // majority: the cut-off members are not needed for an acknowledgement
+	}
 	k.DBLockAofTime = 0
 	sc := &Scenario{Knobs: k, Sched: genSched(r, seed), Body: raw, MaxSimS: 6000}
 	sc.Net = NetCfg{LatencyUs: 200 + r.Intn(300)}
